@@ -225,14 +225,18 @@ PROPS["C10"] = {
     "k_budget": {"quick": {"jobs": 5, "timeout_s": 1500, "mem_gb": 16}, "thorough": {"jobs": 3, "timeout_s": 7200, "mem_gb": 30}},
 }
 PROPS["C03"] = {
-    "engine": "mir-bmc", "technique": _M_TECH,
-    "bounds": "engine M: Multi arc/atomic and arc/full-sync channels (send -> Arc::new + send_derived fan-out; consume(stream_id)), MAX_STREAMS 2 with 1-2 listeners whose set does not change (the live-stream list is a constant of the query), BUFFER_SIZE 4, 1-2 producers x 1-2 sends (all sequences shorter than the buffer), each listener consuming 0-1 events concurrently, the rest read from the final state of its queue; origin any u32; payloads distinct symbolic u32",
-    "outside": "the same-allocation clause (std::sync::Arc is carried as its content: Arc::new / clone / drop are trusted); OgreArc, crossbeam and mmap-log Multi channels (see C14/C05 for the OgreArc handles, C09 for the log); send_with / send_with_async entry points (they wrap the same send_derived); MAX_STREAMS > 2; the 500 ms sleep-and-retry path of a full listener queue (encoded, but the bounds never fill a queue); waking (C04)",
+    "engine": "mir-bmc + kani-real", "technique": _M_TECH,
+    "bounds": "engine K (thorough): two listeners, one event: same allocation observed by both (Arc::ptr_eq / same OgreArc data address). engine M: Multi arc/atomic and arc/full-sync channels (send -> Arc::new + send_derived fan-out; consume(stream_id)), MAX_STREAMS 2 with 1-2 listeners whose set does not change (the live-stream list is a constant of the query), BUFFER_SIZE 4, 1-2 producers x 1-2 sends (all sequences shorter than the buffer), each listener consuming 0-1 events concurrently, the rest read from the final state of its queue; origin any u32; payloads distinct symbolic u32",
+    "outside": "the same-allocation clause under concurrency (engine M carries std::sync::Arc as its content; the clause is decided sequentially by the thorough Kani harnesses); OgreArc, crossbeam and mmap-log Multi channels (see C14/C05 for the OgreArc handles, C09 for the log); send_with / send_with_async entry points (they wrap the same send_derived); MAX_STREAMS > 2; the 500 ms sleep-and-retry path of a full listener queue (encoded, but the bounds never fill a queue); waking (C04)",
     "assumptions": [_M_NOTE, "logging is off (no logger is installed by the library: the log-level test answers false); thread::sleep has no effect on shared state"],
     "functions": ["multi::channels::arc::{atomic,full_sync}::{send, send_derived, consume}", "StreamsManagerBase::{used_streams, wake_stream}", "AtomicMove / FullSyncMove::{publish_movable, consume_movable} and their internals"],
     "m": [M("c03_arc_atomic_2p_1l"), M("c03_arc_atomic_1p_2l_c"), M("c03_arc_full_sync_2p_1l"),
           M("c03_arc_atomic_1p2_2l", "thorough"), M("c03_arc_atomic_2p_1l_c", "thorough"), M("c03_arc_atomic_2p_2l", "thorough"), M("c03_arc_full_sync_1p2_2l", "thorough"), M("c03_arc_atomic_2p2_1l", "thorough")],
-    "k": [],
+    "k": [
+        H("c03::c03_same_allocation_arc_atomic", tier="thorough", inst="ChannelMultiArcAtomic<u32,2,2>", bounds="two listeners, one send (any u32), both take it; origin 0", oracle="both listeners yield the sent payload from the very same allocation (Arc::ptr_eq), nothing else", stubs=_C10_CH_STUBS, ignore_failed=_DEALLOC_ARTEFACT, group="g1", mem_gb=30, jobs=1),
+        H("c03::c03_same_allocation_ogre_arc_atomic", tier="thorough", inst="ChannelMultiOgreArcAtomic<u32,2,2>", bounds="same script", oracle="same data address behind both OgreArc handles", stubs=_C10_CH_STUBS, ignore_failed=_DEALLOC_ARTEFACT, group="g2", mem_gb=40, jobs=1),
+    ],
+    "k_budget": {"thorough": {"jobs": 1, "timeout_s": 3600, "mem_gb": 30}},
 }
 PROPS["C09"] = {
     "engine": "mir-bmc", "technique": _M_TECH,
